@@ -177,6 +177,10 @@ func init() {
 		"reflect.New":                  ext۰reflect۰New,
 		"reflect.SliceOf":              ext۰reflect۰SliceOf,
 		"encoding/json.Unmarshal":      extJSONUnmarshal,
+		// the assembly block function of crypto/md5: run the package's own pure-Go blockGeneric
+		"crypto/md5.block": func(fr *frame, a []value) value {
+			return call(fr.i, fr, 0, fr.i.lookupFunc("crypto/md5", "blockGeneric"), a)
+		},
 		"reflect.PointerTo":            ext۰reflect۰PointerTo,
 		"reflect.PtrTo":                ext۰reflect۰PointerTo,
 		"reflect.TypeOf":               ext۰reflect۰TypeOf,
